@@ -117,6 +117,142 @@ theorem single_live_worker_witness :
     (by decide +kernel) (by decide +kernel) (by decide +kernel)
   exact absurd this (by decide)
 
+/-! ## 4. A woken caller finishes; 5. dropping the manager stops its workers -/
+
+/-- **A caller's own program is short.**  Whatever the others do, `rank ≤ 8` effective steps of caller `j`
+take it to `done` (it then holds a path or an error by `released_with_path_or_error`). -/
+theorem waiter_finishes {s : State} (j : Nat) (hj : j < s.nT) (acts : List Action)
+    (hfair : (s.t j).pc.rank ≤ effT j s acts) : ((run s acts).t j).pc = .done :=
+  caller_progress acts hj hfair
+
+/-- … and its next step is always enabled, except while it waits for a notification that has not come: the
+only thing a caller ever blocks on is the worker's `notify_waiters` (which `waiter_released` delivers). -/
+theorem waiter_enabled_unless_unwoken {s : State} (hr : Reachable s) (j : Nat) (hj : j < s.nT)
+    (hnd : (s.t j).pc ≠ .done)
+    (hwoken : ∀ g i, (s.t j).pc = .waiting g → (s.t j).h = some i → (s.w i).sh.gen ≠ g) :
+    ∃ b, (step? s (.t j b)).isSome = true :=
+  caller_enabled hr.inv hj hnd hwoken
+
+/-- `alive = false` is exactly: the user dropped the manager, no caller of the public API is still in flight
+and no worker holds an upgraded reference – i.e. `MultiPathManagerInner` has been dropped. -/
+theorem manager_gone_iff (s : State) :
+    s.alive = false ↔ s.userDropped = true ∧ (∀ i, i < s.nW → (s.w i).pc.holds = false) ∧
+      (∀ j, j < s.nT → (s.t j).holds = false) :=
+  alive_false_iff s
+
+/-- once gone, always gone (nobody can obtain a reference to the manager any more) -/
+theorem manager_gone_stable {s : State} (hr : Reachable s) (hd : s.alive = false) (acts : List Action) :
+    (run s acts).alive = false := by
+  have hinv := hr.inv
+  clear hr
+  induction acts generalizing s with
+  | nil => exact hd
+  | cons a as ih =>
+    simp only [run, List.foldl_cons]
+    cases hs : step? s a with
+    | none =>
+      have hst : step s a = s := by simp [step, hs]
+      rw [hst]; exact ih hd hinv
+    | some s' =>
+      have hst : step s a = s' := by simp [step, hs]
+      rw [hst]
+      exact ih (dead_step hs hinv hd) (Inv_step hs hinv)
+
+/-- **Dropping the manager stops its workers.**  Once the manager value is gone (the user dropped it and the
+last in-flight caller / lookup released its reference), every worker reaches the end of its task within
+`k = 4` of its own steps – whatever the other workers and the remaining handle holders do – and there
+the handshake flags are clear, `current_error` is the exit error and the active slot is empty: a handle
+reports an error instead of a path. -/
+theorem drop_stops_workers {s : State} (hr : Reachable s) (hd : s.alive = false) (i : Nat) (hi : i < s.nW)
+    (acts : List Action) (hfair : 4 ≤ effW i s acts) :
+    ((run s acts).w i).pc = .done ∧ (∃ r, ((run s acts).w i).sh.error = some (.exited r)) ∧
+    ((run s acts).w i).sh.active = none ∧ ((run s acts).w i).pending = false := by
+  have hinv := hr.inv
+  have hnh := ((alive_false_iff s).1 hd).2.1 i hi
+  have hdone := exit_progress acts hinv hd hi (Nat.le_trans (exitRank_le_of_not_holds hnh) hfair)
+  have hD := (Inv_run acts hinv).dinv i
+  exact ⟨hdone, (hD.1 (Or.inr hdone)).1, hD.2 hdone, (hD.1 (Or.inr hdone)).2⟩
+
+/-- a worker that has not finished always has an enabled step once the manager is gone (it cannot be
+stuck: the closed issue channel / the fired cancel token wake it, `upgrade()` fails, it leaves) -/
+theorem dead_worker_enabled {s : State} (hd : s.alive = false) (i : Nat) (hi : i < s.nW)
+    (hnd : (s.w i).pc ≠ .done) : ∃ b, (step? s (.w i b)).isSome = true := by
+  obtain ⟨b, hb⟩ := wNext_enabled_dead (s.w i) hnd
+  refine ⟨b, ?_⟩
+  simp only [step?, stepRaw, stepW, hi, if_true, Option.isSome_map, hd]
+  cases hx : wNext (s.w i) false b with
+  | none => simp [hx] at hb
+  | some x => simp only; split <;> rfl
+
+/-- **A handle used after its worker finished reports the exit error, never a path.**  If worker `i` is done
+and caller `j` starts `handle.active_path()` / `current_error()` on its handle (program point `loadActive`),
+then along every schedule, when `j` has returned, it returned `Err(exited …)`. -/
+theorem handle_reports_error_after_exit {s : State} (hr : Reachable s) (i j : Nat) (hi : i < s.nW)
+    (hdone : (s.w i).pc = .done) (hh : (s.t j).h = some i) (hpc : (s.t j).pc = .loadActive)
+    (acts : List Action) (hfin : ((run s acts).t j).pc = .done) :
+    ∃ r, ((run s acts).t j).res = some (.err (.exited r)) := by
+  have hinv := hr.inv
+  obtain ⟨⟨r, her⟩, hpend⟩ := (hinv.dinv i).1 (Or.inr hdone)
+  have hact := (hinv.dinv i).2 hdone
+  -- invariant along the run: the worker is frozen, the caller walks loadActive → lockCheck → reload → readErr → done
+  have hjlt : j < s.nT := by
+    refine Nat.lt_of_not_le (fun hge => ?_)
+    have := hinv.tailT j hge
+    simp [hpc] at this
+  have key : ∀ (acts : List Action) (s : State), Inv s → j < s.nT → i < s.nW → (s.w i).pc = .done →
+      (s.w i).sh.error = some (.exited r) → (s.w i).pending = false → (s.w i).sh.active = none →
+      (s.t j).h = some i →
+      (((s.t j).pc = .loadActive ∨ (s.t j).pc = .lockCheck ∨ (s.t j).pc = .reload ∨ (s.t j).pc = .readErr) ∨
+        ((s.t j).pc = .done ∧ (s.t j).res = some (.err (.exited r)))) →
+      ((run s acts).t j).pc = .done → ((run s acts).t j).res = some (.err (.exited r)) := by
+    intro acts
+    induction acts with
+    | nil =>
+      intro s _ _ _ _ _ _ _ _ hcase hf
+      rcases hcase with h | h
+      · simp only [run, List.foldl_nil] at hf
+        rcases h with h | h | h | h <;> simp [h] at hf
+      · exact h.2
+    | cons a as ih =>
+      intro s hinv hjlt hi hdone her hpend hact hh hcase hf
+      simp only [run, List.foldl_cons] at hf ⊢
+      obtain ⟨hd1, hd2⟩ := done_step a hi hdone
+      have hinv' := Inv_stepTotal a hinv
+      have hi' := (gen_mono_step s a hi).2
+      have hjlt' : j < (step s a).nT := by
+        unfold step
+        cases hs : step? s a with
+        | none => simpa using hjlt
+        | some s' => simpa using Nat.lt_of_lt_of_le hjlt (step?_frameT hs j).2
+      refine ih (step s a) hinv' hjlt' hi' hd1 (by rw [hd2]; exact her)
+        (by simpa [Worker.pending, hd2] using hpend) (by rw [hd2]; exact hact) ?_ ?_ hf
+      all_goals
+        unfold step
+        cases hs : step? s a with
+        | none => simp only [Option.getD_none]; first | exact hh | exact hcase
+        | some s' =>
+          simp only [Option.getD_some]
+          rcases (step?_frameT hs j).1 with e | ⟨b, rfl, _⟩ | ⟨e, _⟩
+          · rw [e]; first | exact hh | exact hcase
+          · -- caller j's own step
+            simp only [step?, Option.map_eq_some_iff, stepRaw] at hs
+            obtain ⟨s1, h1, rfl⟩ := hs
+            simp only [settle_t]
+            rcases hcase with hc | hc
+            · have hn : (s.t j).pc.needsH = true := by rcases hc with h | h | h | h <;> simp [h]
+              obtain ⟨k1, k2⟩ := stepT_read h1 hh hn hact hpend her
+              first
+                | exact k1
+                | (rcases k2 with k | k | k | k | ⟨g, k⟩
+                   · exact Or.inl (Or.inr (Or.inl k.2))
+                   · exact Or.inl (Or.inr (Or.inr (Or.inl k.2)))
+                   · exact Or.inl (Or.inr (Or.inr (Or.inr k.2)))
+                   · exact Or.inr k.2
+                   · rcases hc with h | h | h | h <;> simp [h] at k)
+            · exact absurd hc.1 (stepT_self h1).notdone
+          · omega
+  exact ⟨r, key acts s hinv hjlt hi hdone her hpend hact hh (Or.inl (Or.inl hpc)) hfin⟩
+
 /-! ## non-vacuity -/
 
 /-- two concurrent first requests for pair 5: caller 0 inserts, caller 1 finds the entry; both register while
@@ -135,5 +271,23 @@ def demo2 : List Action :=
 
 example : ((run State.init demo2).t 0).res = some (.err .fetchFailed) ∧
     ((run State.init demo2).t 1).res = some (.err .fetchFailed) := by decide +kernel
+
+/-- the user drops the manager while the worker still holds its upgraded reference; when the worker releases
+it the manager value is gone (hypothesis of `drop_stops_workers`) with the worker in its `select!` loop -/
+def demo3 : List Action := demo2 ++ [.m .drop, .w 0 .releaseMgr]
+
+example : (run State.init demo3).alive = false ∧ ((run State.init demo3).w 0).pc = .loop ∧
+    ((run State.init demo3).w 0).cancelled = true ∧ (run State.init demo3).map 5 = none := by decide +kernel
+
+/-- … four own steps later it is done, and a handle used afterwards reports the exit error
+(hypotheses of `handle_reports_error_after_exit`) -/
+def demo4 : List Action :=
+  demo3 ++ [.w 0 .cancelSeen, .w 0 .exitRemove, .w 0 .exitNotify, .w 0 .storeNone, .m (.spawnHandle 0)]
+
+example : ((run State.init demo4).w 0).pc = .done ∧ ((run State.init demo4).t 2).pc = .loadActive ∧
+    ((run State.init demo4).t 2).h = some 0 := by decide +kernel
+
+example : ((run State.init (demo4 ++ [.t 2 .loadActive, .t 2 .lockCheck, .t 2 .reload, .t 2 .readErr])).t 2).res
+    = some (.err (.exited .cancelled)) := by decide +kernel
 
 end ScionVerif.Sched
